@@ -24,9 +24,9 @@ class MParseError(Exception):
 
 TOKEN = re.compile(r"""
     (?P<ws>\s+)
-  | (?P<num>\d+(?:\.\d+)?)
+  | (?P<num>\d+(?:\.\d+)?(?:[eE][+-]?\d+)?)
   | (?P<str>'(?:[^']|'')*')
-  | (?P<op>&&|\|\||==|~=|[()\[\]{},;=@:.<>~])
+  | (?P<op>&&|\|\||==|~=|<=|>=|[()\[\]{},;=@:.<>~+\-*&|])
   | (?P<id>[A-Za-z_][A-Za-z_0-9]*)
 """, re.X)
 
@@ -64,25 +64,53 @@ class ExprParser:
 
     def expr(self):
         left = self.and_()
-        while self.peek()[1] == "||":
+        while self.peek()[1] in ("||", "|"):
             self.eat()
             left = ("or", left, self.and_())
         return left
 
     def and_(self):
         left = self.cmp()
-        while self.peek()[1] == "&&":
+        while self.peek()[1] in ("&&", "&"):
             self.eat()
             left = ("and", left, self.cmp())
         return left
 
     def cmp(self):
-        left = self.primary()
-        if self.peek()[1] in ("==", "~="):
+        left = self.additive()
+        while self.peek()[1] in ("==", "~=", "<", ">", "<=", ">="):
             op = self.eat()[1]
-            right = self.primary()
-            left = ("eq", left, right) if op == "==" else ("not", ("eq", left, right))
+            right = self.additive()
+            if op == "==":
+                left = ("eq", left, right)
+            elif op == "~=":
+                left = ("not", ("eq", left, right))
+            else:
+                left = ("rel", op, left, right)
         return left
+
+    def additive(self):
+        left = self.term()
+        while self.peek()[1] in ("+", "-"):
+            op = self.eat()[1]
+            left = ("arith", op, left, self.term())
+        return left
+
+    def term(self):
+        left = self.unary()
+        while self.peek()[1] == "*":
+            self.eat()
+            left = ("arith", "*", left, self.unary())
+        return left
+
+    def unary(self):
+        if self.peek()[1] == "-":
+            self.eat()
+            return ("arith", "-", ("num", "0"), self.unary())
+        if self.peek()[1] == "+":
+            self.eat()
+            return self.unary()
+        return self.primary()
 
     def primary(self):
         kind, val = self.peek()
@@ -99,7 +127,7 @@ class ExprParser:
             return e
         if val == "~":
             self.eat()
-            return ("not", self.primary())
+            return ("not", self.unary())
         if val == ":":
             self.eat()
             return ("colon",)
@@ -203,6 +231,27 @@ def _split_assignment(stmt):
     return None, stmt.strip()
 
 
+def _split_top(text, sep):
+    """split at top-level occurrences of sep (outside brackets and strings)"""
+    out, depth, in_s, cur = [], 0, False, []
+    for ch in text:
+        if ch == "'":
+            in_s = not in_s
+        if not in_s:
+            if ch in "([{":
+                depth += 1
+            elif ch in ")]}":
+                depth -= 1
+            elif ch == sep and depth == 0:
+                out.append("".join(cur).strip())
+                cur = []
+                continue
+        cur.append(ch)
+    if "".join(cur).strip():
+        out.append("".join(cur).strip())
+    return out
+
+
 def _parse_lhs(lhs):
     lhs = lhs.strip()
     if lhs.startswith("["):
@@ -261,6 +310,27 @@ def parse_block(lines, i, terminators):
             out.append(("if", branches, else_body))
             i += 1
             continue
+        if w == "switch":
+            subject = parse_expr(ln[6:].strip())
+            cases, default = [], None
+            body, i, term = parse_block(lines, i + 1, ("case", "otherwise", "end"))
+            while True:
+                tw = re.match(r"[A-Za-z_]+", term).group(0)
+                if tw == "case":
+                    label = term[4:].strip()
+                    if label.startswith("{") and label.endswith("}"):
+                        labels = [parse_expr(x) for x in _split_top(label[1:-1], ",")]
+                    else:
+                        labels = [parse_expr(label)]
+                    body, i, term = parse_block(lines, i + 1, ("case", "otherwise", "end"))
+                    cases.append((labels, body))
+                elif tw == "otherwise":
+                    default, i, term = parse_block(lines, i + 1, ("end",))
+                else:
+                    break
+            out.append(("switch", subject, cases, default))
+            i += 1
+            continue
         if w == "error" and ln.startswith("error("):
             out.append(("error", parse_expr(ln.rstrip(";"))))
             i += 1
@@ -277,6 +347,7 @@ class ClassDef:
         self.methods = {}       # name -> Function (incl. constructor under the bare class name, delete)
         self.statics = {}
         self.getters, self.setters = {}, {}
+        self.local_functions = {}   # file-local helper functions defined after the classdef block
         self.enum_members = []  # [(name, value)] for enumeration classdefs
         self.package = ""       # dotted package path, set by load_toolbox
 
@@ -285,13 +356,45 @@ class ClassDef:
         return (self.package + "." if self.package else "") + self.name
 
 
+_BLOCK_WORDS = re.compile(r"(function|classdef|if|elseif|else|switch|case|otherwise|for|while|methods|properties|"
+                          r"enumeration|events|end)\b")
+
+
+def _logical_lines(text):
+    """comment-free, non-empty statements: `...` continuations joined, `a = 1; b = 2;` split"""
+    lines, pending = [], ""
+    for raw in text.splitlines():
+        ln = _strip_comment(raw).rstrip()
+        k = ln.find("...")
+        if k >= 0 and ln.count("'", 0, k) % 2 == 0:
+            pending += ln[:k] + " "
+            continue
+        ln = (pending + ln).strip()
+        pending = ""
+        if not ln:
+            continue
+        if _BLOCK_WORDS.match(ln):
+            lines.append(ln)
+        else:
+            lines.extend(x for x in _split_top(ln, ";") if x)
+    return lines
+
+
+def _parse_function_at(lines, i):
+    fl = lines[i]
+    m2 = FUNC_RE.match(fl)
+    if not m2:
+        raise MParseError("bad function line %r" % fl)
+    outs = m2.group(1) or ""
+    fn = Function(m2.group(2), outs.strip("[] ").replace(",", " ").split(),
+                  [p.strip() for p in (m2.group(3) or "").split(",") if p.strip()])
+    fn.body, i, _ = parse_block(lines, i + 1, ("end",))
+    return fn, i + 1
+
+
 def parse_file(text):
     """-> ('class', ClassDef) | ('function', Function)"""
-    lines = []
-    for raw in text.splitlines():
-        ln = _strip_comment(raw).strip()
-        if ln:
-            lines.append(ln)
+    lines = _logical_lines(text)
     if not lines:
         raise MParseError("empty file")
     if lines[0].startswith("classdef"):
@@ -305,12 +408,16 @@ def parse_file(text):
             if ln == "end":
                 i += 1
                 continue
-            if ln == "properties":
+            if re.match(r"properties\b", ln):
                 i += 1
                 while lines[i] != "end":
                     cd.props.append(lines[i].split("=")[0].strip())
                     i += 1
                 i += 1
+            elif ln.startswith("function"):
+                # a local function after the classdef block: callable from the methods of this file
+                fn, i = _parse_function_at(lines, i)
+                cd.local_functions[fn.name] = fn
             elif ln == "enumeration":
                 i += 1
                 while lines[i] != "end":
@@ -320,8 +427,8 @@ def parse_file(text):
                     cd.enum_members.append((mm.group(1), int(mm.group(2))))
                     i += 1
                 i += 1
-            elif ln.startswith("methods"):
-                static = "Static" in ln
+            elif re.match(r"methods\b", ln):
+                static = bool(re.search(r"Static(\s*=\s*true)?\s*[,)]", ln)) and not re.search(r"Static\s*=\s*false", ln)
                 i += 1
                 while lines[i] != "end":
                     fl = lines[i]
@@ -358,6 +465,14 @@ def parse_file(text):
         fn = Function(m2.group(2), outs.strip("[] ").replace(",", " ").split(),
                       [p.strip() for p in (m2.group(3) or "").split(",") if p.strip()])
         fn.body, i, _ = parse_block(lines, 1, ("end",))
+        fn.local_functions = {}
+        i += 1
+        while i < len(lines):
+            if lines[i].startswith("function"):
+                g, i = _parse_function_at(lines, i)
+                fn.local_functions[g.name] = g
+            else:
+                i += 1
         return "function", fn
     raise MParseError("not a classdef or function file: %r" % lines[0])
 
